@@ -203,6 +203,21 @@ def gen_cases(rng, tier):
             cases.append({'id': 'c10-inputreal-%d' % j, 'cfg': cfg, 'hist': h, 'sub': 'ksim', 'active': held, 'mech': 'input-real-' + kind,
                           'tags': {'kind': 'input-real-by-' + kind, 'form': 'switch'}})
             j += 1
+    # input-history leaves in a configuration that also has a defchordsv2 block over other keys (presses then travel through the chord
+    # queue before they reach the layout: the history must be the same)
+    for ci in range(12 if tier == 'quick' else 200):
+        R = rng.choice([1, 2, 3])
+        who = rng.choice(['s', 'd'])
+        cfg = ('(defcfg concurrent-tap-hold yes)\n(defsrc a s d f g)\n(deflayer l0 (switch ((input-history real %s %d)) y break () x break) b c f g)\n'
+               '(defchordsv2 (f g) esc 50 all-released ())' % (who, R))
+        h = ['t3']
+        for _ in range(rng.randint(1, 4)):
+            kk = rng.choice([31, 32])
+            h += ['d%d' % kk, 't%d' % rng.choice([3, 60]), 'u%d' % kk, 't%d' % rng.choice([3, 70])]
+        h += ['d30', 't5', 'u30', 't100']
+        cases.append({'id': 'c10-ihchv2-%d' % ci, 'cfg': cfg, 'hist': h, 'sub': 'ksim', 'tags': {'kind': 'input-history-with-chords-v2'}})
+        cases.append({'id': 'c10-ihplain-%d' % ci, 'cfg': cfg.replace('\n(defchordsv2 (f g) esc 50 all-released ())', ''), 'hist': h, 'sub': 'ksim',
+                      'ih_twin': 'c10-ihchv2-%d' % ci, 'tags': {'kind': 'input-history-plain-twin'}})
     # key-timing on an older key after many keys have been typed (the history keeps 8; every entry ages, also after the ring has wrapped)
     for n in range(1, 21):
         for R in (1, 2, 3, 8):
@@ -231,7 +246,22 @@ def gen_cases(rng, tier):
 
 def post(all_results, run_impl, rng, tier, stats):
     from checks.common import loop_pair_violations
-    return loop_pair_violations(all_results)
+    out = loop_pair_violations(all_results)
+    # input-history: the same history with and without an unrelated defchordsv2 block gives the same key presses
+    import re
+    by = {c['id']: (c, it) for c, it, mt in all_results}
+    n = 0
+    for cid, (c, it) in by.items():
+        if 'ih_twin' not in c or c['ih_twin'] not in by or not it:
+            continue
+        o = by[c['ih_twin']]
+        ev = lambda tr: [e for l in (tr or []) if l.startswith('@') for e in l.split()[1:] if re.fullmatch(r'd\d+', e)]
+        n += 1
+        if ev(it) != ev(o[1]):
+            out.append((o[0], o[1], None, 'the input-history case fires differently when an unrelated defchordsv2 block is present: presses %s '
+                                          'with it, %s without' % (ev(o[1]), ev(it))))
+    stats['input_history_twins'] = n
+    return out
 
 
 def flat(f):
